@@ -86,7 +86,8 @@ inductive Discharge
   by the probe rig in three interpreters) -/
   | setIntHash
   /-- neighbour order of the reward-sharing graph in `topological_sort`: every dependencies-first order computes the same
-  rewards (lemma below); the result IS dependencies-first for every neighbour order (C10_graph_order_irrelevant) -/
+  rewards (lemma below); the result IS dependencies-first for every neighbour order (C10_graph_order_irrelevant). The order is
+  consumed ONLY by the reward loop (Gen obligation `C03_gen_order_consumers` over the regenerated `orderUses`). -/
   | setTopo
   /-- neighbour order in `graph_has_cycle`: two graphs with the same arcs are both cyclic or both acyclic
   (C10_graph_order_irrelevant) -/
